@@ -1,6 +1,7 @@
 package main
 
 import (
+	"os"
 	"sync"
 	"fmt"
 	"math/big"
@@ -50,6 +51,7 @@ type Explorer struct {
 	UnknownSites  map[string]int
 	QuerySites    map[string]int
 	SimpDecided   int
+	AbsDecided    int
 }
 
 type PathCtx struct {
@@ -68,6 +70,7 @@ type PathCtx struct {
 	sched     []int64 // scheduling choices (explored-mode threads), for native replay
 	curFrame  *frame
 	hashApps  []hashApp
+	abs       *absInt
 }
 
 func (c *PathCtx) sync() {
@@ -87,6 +90,25 @@ func (c *PathCtx) add(t *Term) {
 	if !noSimp {
 		c.facts.learn(t)
 	}
+	if !noAbs {
+		if c.abs == nil {
+			c.abs = newAbsInt()
+		}
+		c.abs.learn(t)
+	}
+}
+
+var noAbs = os.Getenv("GOSX_NOABS") != ""
+
+// absDecide: 1 / 2 when the condition is true / false for every value inside the learned ranges
+func (c *PathCtx) absDecide(cond *Term) int8 {
+	if noAbs {
+		return 3
+	}
+	if c.abs == nil {
+		c.abs = newAbsInt()
+	}
+	return c.abs.triOf(cond)
 }
 
 var noSimp = false
@@ -106,6 +128,10 @@ func (c *PathCtx) Branch(cond *Term) bool {
 	if sc := c.simp(cond); sc.IsConst() {
 		c.ex.SimpDecided++
 		return sc.IsTrue()
+	}
+	if r := c.absDecide(cond); r != 3 {
+		c.ex.AbsDecided++
+		return r == 1
 	}
 	if c.pos < len(c.prefix) {
 		d := c.prefix[c.pos]
@@ -184,6 +210,15 @@ func (c *PathCtx) PanicIf(cond *Term, msg string) {
 }
 
 func (c *PathCtx) Concretize(t *Term, why string) int64 {
+	if !noAbs && t.W > 0 && t.W <= 64 {
+		if c.abs == nil {
+			c.abs = newAbsInt()
+		}
+		if r := c.abs.iv(t); r.lo.Cmp(r.hi) == 0 {
+			c.ex.AbsDecided++
+			return signed(t.W, r.lo).Int64()
+		}
+	}
 	if c.pos < len(c.prefix) {
 		v := c.prefix[c.pos]
 		c.pos++
@@ -269,7 +304,19 @@ func (c *PathCtx) Assert(cond *Term, msg string) {
 	if cond.IsTrue() {
 		return
 	}
+	// implied by facts / value ranges learned from the path condition: no solver call needed
+	if sc := c.simp(cond); sc.IsTrue() {
+		c.ex.SimpDecided++
+		return
+	}
+	if c.absDecide(cond) == 1 {
+		c.ex.AbsDecided++
+		return
+	}
 	c.ex.AssertQueries++
+	if c.ex.QuerySites != nil {
+		c.ex.QuerySites["assert: "+msg]++
+	}
 	c.sync()
 	s := c.ex.solver
 	r := s.Check(Not(cond))
